@@ -158,24 +158,26 @@ def decodeGre (old : Layer) (data foreign : Bytes) : Res (Layer × Bool) :=
     let d1 ← index data 1
     let s ← sliceCap data foreign 2 4
     let proto ← beUint16 s
-    let cp := d0 &&& 0x80 != 0
-    let rp := d0 &&& 0x40 != 0
-    let kp := d0 &&& 0x20 != 0
-    let sp := d0 &&& 0x10 != 0
-    let ssr := d0 &&& 0x08 != 0
-    let ap := d1 &&& 0x80 != 0
+    let n0 := d0.toNat                             -- uint8 arithmetic on data[0], data[1] (no overflow in & and >>)
+    let n1 := d1.toNat
+    let cp := n0 &&& 0x80 != 0
+    let rp := n0 &&& 0x40 != 0
+    let kp := n0 &&& 0x20 != 0
+    let sp := n0 &&& 0x10 != 0
+    let ssr := n0 &&& 0x08 != 0
+    let ap := n1 &&& 0x80 != 0
     let (csum, off16, o1) ← decChecksumOffset (cp || rp) data foreign 4
     let (key, o2) ← decU32 kp data foreign o1
     let (seq, o3) ← decU32 sp data foreign o2
-    let (routing, o4) ← if rp then decRouting data foreign data.length o3 else pure ([], o3)
+    let (routing, o4) ← (if rp then decRouting data foreign data.length o3 else pure ([], o3))
     let (ack, o5) ← decU32 ap data foreign o4
     let contents ← sliceCap data foreign 0 o5      -- data[:offset]
     let payload ← sliceFrom data o5                -- data[offset:]
     pure ({ contents := contents, payload := payload,
             checksumPresent := cp, routingPresent := rp, keyPresent := kp, seqPresent := sp,
             strictSourceRoute := ssr, ackPresent := ap,
-            recursionControl := (d0 &&& 0x7).toNat, flags := (d1 >>> 3).toNat,
-            version := (d1 &&& 0x7).toNat, protocol := proto,
+            recursionControl := n0 &&& 0x7, flags := n1 >>> 3,
+            version := n1 &&& 0x7, protocol := proto,
             checksum := csum, offset := off16, key := key, seq := seq, ack := ack,
             routing := routing }, false)
 
@@ -310,15 +312,16 @@ def put (w : SBuf.Win) (c : Cur) (vs : Bytes) : Res Cur := do
 def skip (w : SBuf.Win) (c : Cur) (n : Nat) : Res Cur :=
   if c.off + n ≤ w.n then .ok { c with off := c.off + n } else .panic .slice
 
-/-- gre.go:159-181: `buf[0] = 0; buf[0] |= …` collapsed into the value finally stored. -/
+/-- gre.go:159-181: `buf[0] = 0; buf[0] |= …` collapsed into the value finally stored
+    (uint8 arithmetic: operands and result reduced modulo 256). -/
 def byte0 (l : Layer) : UInt8 :=
-  (0 : UInt8) ||| (if l.checksumPresent then (0x80 : UInt8) else 0)
-    ||| (if l.routingPresent then (0x40 : UInt8) else 0)
-    ||| (if l.keyPresent then (0x20 : UInt8) else 0) ||| (if l.seqPresent then (0x10 : UInt8) else 0)
-    ||| (if l.strictSourceRoute then (0x08 : UInt8) else 0) ||| u8 l.recursionControl
+  u8 (0 ||| (if l.checksumPresent then 0x80 else 0) ||| (if l.routingPresent then 0x40 else 0)
+        ||| (if l.keyPresent then 0x20 else 0) ||| (if l.seqPresent then 0x10 else 0)
+        ||| (if l.strictSourceRoute then 0x08 else 0) ||| l.recursionControl % 256)
 
+/-- `buf[1] = 0; if AckPresent { buf[1] |= 0x80 }; buf[1] |= Flags << 3; buf[1] |= Version`. -/
 def byte1 (l : Layer) : UInt8 :=
-  (0 : UInt8) ||| (if l.ackPresent then (0x80 : UInt8) else 0) ||| (u8 l.flags <<< 3) ||| u8 l.version
+  u8 (0 ||| (if l.ackPresent then 0x80 else 0) ||| ((l.flags % 256) <<< 3) % 256 ||| l.version % 256)
 
 /-- gre.go:203-210, one iteration per SRE. -/
 def putSREs (v : Variant) (w : SBuf.Win) : Cur → List SRE → Res Cur
@@ -330,40 +333,43 @@ def putSREs (v : Variant) (w : SBuf.Win) : Cur → List SRE → Res Cur
     -- copy(buf[offset+4:offset+4+int(SRELength)], RoutingInformation): min(len) bytes are copied
     let n := min r.sreLength r.routingInformation.length
     let c ← put w c (r.routingInformation.take n)
-    let c ← if v.zeroShortInfo then put w c (SBuf.zeros (r.sreLength - n))   -- lgre-2: clear(rest)
-            else skip w c (r.sreLength - n)                                  -- original: never written
+    let c ← (if v.zeroShortInfo then put w c (SBuf.zeros (r.sreLength - n))  -- lgre-2: clear(rest)
+             else skip w c (r.sreLength - n))                                -- original: never written
     putSREs v w c rs                                          -- offset += 4+SRELength; sre = sre.Next
 
-/-- (*GRE).SerializeTo(b, opts) for the tree variant `v`; returns the buffer and the receiver
-    (g.Checksum is assigned under ChecksumPresent ∧ ComputeChecksums; FixLengths is not consulted). -/
-def serializeGreV (v : Variant) (l : Layer) (b : SBuf.SBuf) (opts : Opts) : Res (SBuf.SBuf × Layer) := do
-  let size := headerSize l
-  let (b, w) := SBuf.prepend b size                           -- buf, err := b.PrependBytes(size)
-  let c : Cur := { b := b, off := 0 }
+/-- gre.go:158-217: all stores from `buf[0]` to the Ack word, in program order. -/
+def writeHeader (v : Variant) (l : Layer) (w : SBuf.Win) (c : Cur) : Res Cur := do
   let c ← put w c [byte0 l]                                   -- buf[0]
   let c ← put w c [byte1 l]                                   -- buf[1]
   let c ← put w c (putBe16 l.protocol)                        -- PutUint16(buf[2:4], Protocol)
-  let c ← if l.checksumPresent || l.routingPresent then do
+  let c ← (if l.checksumPresent || l.routingPresent then do
             let c ← put w c (if v.keepRoutingOnlyCsum && !l.checksumPresent
                              then putBe16 l.checksum          -- lgre-3
                              else [0, 0])                     -- buf[offset] = 0; buf[offset+1] = 0
             put w c (putBe16 l.offset)                        -- PutUint16(buf[offset+2:offset+4], Offset)
-          else pure c
-  let c ← if l.keyPresent then put w c (putBe32 l.key) else pure c
-  let c ← if l.seqPresent then put w c (putBe32 l.seq) else pure c
-  let c ← if l.routingPresent then do
+          else pure c)
+  let c ← (if l.keyPresent then put w c (putBe32 l.key) else pure c)
+  let c ← (if l.seqPresent then put w c (putBe32 l.seq) else pure c)
+  let c ← (if l.routingPresent then do
             let c ← putSREs v w c l.routing
             let c' ← put w c (putBe32 0)                      -- NULL SRE
             pure (if v.advanceAfterTerminator then c' else { c' with off := c.off })  -- lgre-1
-          else pure c
-  let c ← if l.ackPresent then put w c (putBe32 l.ack) else pure c
-  if l.checksumPresent then
-    let l' := if opts.computeChecksums
-              then { l with checksum := Cksum.fold (Cksum.compute (SBuf.contents c.b) 0) }
-              else l
-    let b ← storeAt c.b w 4 (putBe16 l'.checksum)             -- PutUint16(buf[4:6], g.Checksum)
-    pure (b, l')
-  else pure (c.b, l)
+          else pure c)
+  (if l.ackPresent then put w c (putBe32 l.ack) else pure c)
+
+/-- (*GRE).SerializeTo(b, opts) for the tree variant `v`; returns the buffer and the receiver
+    (g.Checksum is assigned under ChecksumPresent ∧ ComputeChecksums; FixLengths is not consulted). -/
+def serializeGreV (v : Variant) (l : Layer) (b : SBuf.SBuf) (opts : Opts) : Res (SBuf.SBuf × Layer) :=
+  let pw := SBuf.prepend b (headerSize l)                     -- buf, err := b.PrependBytes(size)
+  do
+    let c ← writeHeader v l pw.2 { b := pw.1, off := 0 }
+    if l.checksumPresent then
+      let l' := if opts.computeChecksums
+                then { l with checksum := Cksum.fold (Cksum.compute (SBuf.contents c.b) 0) }
+                else l
+      let b ← storeAt c.b pw.2 4 (putBe16 l'.checksum)        -- PutUint16(buf[4:6], g.Checksum)
+      pure (b, l')
+    else pure (c.b, l)
 
 /-- The modelled target: the tree with lgre-1, lgre-2, lgre-3 applied. -/
 def serializeGre (l : Layer) (b : SBuf.SBuf) (opts : Opts) : Res (SBuf.SBuf × Layer) :=
